@@ -35,6 +35,8 @@ import (
 type H struct {
 	Dir   string
 	Index string
+	// Mirror: a second shard of the database holds every series written (see New)
+	Mirror bool
 	Store *tsdb.Store
 
 	held     *Gate      // a cache snapshot held between "written" and "installed"
@@ -50,6 +52,13 @@ const DB, RP = "db0", "rp0"
 var TagKeys = []string{"host", "region"}
 
 const ShardID = 1
+
+// the mirror shard of the "+2" configurations
+const (
+	MirrorShardID = 2
+	MirrorRP      = "rp1"
+	MirrorTime    = int64(4102444800000000000) // 2100-01-01
+)
 
 type noPlanner struct{}
 
@@ -73,11 +82,24 @@ func WorkDir(sub string) string {
 
 func New(dir, index string) (*H, error) {
 	h := &H{Dir: dir, Index: index}
+	if strings.HasSuffix(index, "+2") {
+		// a second shard of the same database (under another retention policy) that holds
+		// every series written, at an instant far outside the test's range: the series file
+		// and (for inmem) the index are shared by the database, so a series dropped from the
+		// first shard by a bounded delete keeps its id
+		h.Index = strings.TrimSuffix(index, "+2")
+		h.Mirror = true
+	}
 	if err := h.Open(); err != nil {
 		return nil, err
 	}
 	if err := h.Store.CreateShard(DB, RP, ShardID, true); err != nil {
 		return nil, err
+	}
+	if h.Mirror {
+		if err := h.Store.CreateShard(DB, MirrorRP, MirrorShardID, true); err != nil {
+			return nil, err
+		}
 	}
 	h.quiet()
 	return h, nil
@@ -241,6 +263,17 @@ func (h *H) Write(arg string) string {
 		return "bad-op"
 	}
 	err = h.Store.WriteToShard(ShardID, pts)
+	if h.Mirror {
+		var mp []models.Point
+		for _, p := range pts {
+			if q, err := models.NewPoint(string(p.Name()), p.Tags(), models.Fields{"mirror": true}, time.Unix(0, MirrorTime)); err == nil {
+				mp = append(mp, q)
+			}
+		}
+		if merr := h.Store.WriteToShard(MirrorShardID, mp); merr != nil {
+			return "err:mirror:" + strings.ReplaceAll(merr.Error(), " ", "_")
+		}
+	}
 	switch e := err.(type) {
 	case nil:
 		return "ok"
@@ -611,8 +644,17 @@ func (h *H) Series() string {
 	return csv(out)
 }
 
+// listRP restricts database-wide listings to the first shard's retention policy when there
+// is a mirror shard (the disk-based index only: the in-memory one does not support it).
+func (h *H) listRP() string {
+	if h.Mirror {
+		return RP
+	}
+	return ""
+}
+
 func (h *H) Measurements() string {
-	names, err := h.Store.MeasurementNames(context.Background(), nil, DB, "", nil)
+	names, err := h.Store.MeasurementNames(context.Background(), nil, DB, h.listRP(), nil)
 	if err != nil {
 		return "err:" + strings.ReplaceAll(err.Error(), " ", "_")
 	}
@@ -736,7 +778,7 @@ func (h *H) MeasurementsIn(vals string) string {
 	if err != nil {
 		return "bad-op"
 	}
-	names, err := h.Store.MeasurementNames(context.Background(), nil, DB, "", cond)
+	names, err := h.Store.MeasurementNames(context.Background(), nil, DB, h.listRP(), cond)
 	if err != nil {
 		return "err:" + strings.ReplaceAll(err.Error(), " ", "_")
 	}
